@@ -111,14 +111,14 @@ def check_payload(ctx, variant, bits, spec, cuts, full=None, sample=False):
                 rep.disagree('H-codec/decode-prefix', {'variant': variant[0], 'bits': bits, 'n': n}, replies[i][:300], diff)
         for comp, k, text in oracle(full, pre, layout, n, spec['class']):
             rep.violation({'entry': 'decode', 'class': spec['class'], 'component': comp, 'kind': k}, text,
-                          {'bits': bits, 'n': n})
+                          {'bits': bits, 'n': n, 'cuts': cuts, 'upto': i})
         if i % 3 == 0 and n > 6 * 17:
             # the same prefix carried by several short sentences handed over in reverse order (decode() accepts any order):
             # the covered fields and the None fields must be the same -- pad bits of the closing fragment must not leak in
             pre2 = impl_decode_reversed(bits[:n])
             for comp, k, text in oracle(full, pre2, layout, n, spec['class']):
                 rep.violation({'entry': 'decode(reversed parts)', 'class': spec['class'], 'component': comp, 'kind': k},
-                              text + ' [parts passed in reverse order]', {'bits': bits, 'n': n, 'reversed': True})
+                              text + ' [parts passed in reverse order]', {'bits': bits, 'n': n, 'reversed': True, 'cuts': cuts, 'upto': i})
         if sample and pre[0] == 'Ok' and i == len(cuts) // 2:
             rep.sample({'variant': spec['class'], 'payload_bits': len(bits), 'cut': n,
                         'decoded_prefix': {k: cc.show(v) for k, v in pre[2]}})
@@ -249,6 +249,15 @@ def replay(ctx, data):
     spec = cc.parse_spec(m.ask(f'spec {bits}'))
     if spec is None:
         return None
+    full = cc.impl_decode(bits)
+    for i, c in enumerate((data.get('cuts') or [])[:data.get('upto', 0)]):
+        # the prefixes decoded before this one in the recorded run, in the same order (a result that depends on an earlier
+        # decode() -- a cache keyed too coarsely -- only reproduces after them)
+        cc.impl_decode(bits[:c])
+        if i % 3 == 0 and c > 6 * 17:
+            impl_decode_reversed(bits[:c])
+    if data.get('reversed'):
+        cc.impl_decode(bits[:n])
     pre = impl_decode_reversed(bits[:n]) if data.get('reversed') else cc.impl_decode(bits[:n])
-    bad = oracle(cc.impl_decode(bits), pre, spec['layout'], n, spec['class'])
+    bad = oracle(full, pre, spec['layout'], n, spec['class'])
     return '; '.join(t for _, _, t in bad) if bad else None
